@@ -5,10 +5,14 @@
     of its own group, which is what the emitted range checks guard.  Where the
     generator emits no check (listed findings F06, F07) the model truncates exactly as
     the emitted casts do; "error iff out of range" and "bytes = encoded_len" for whole
-    declarations are compared with the reference on every run: `_partial`. *)
+    declarations are compared with the reference on every run: `_partial`.
+    For whole declarations of the bit-field fragment both halves are theorems (below):
+    no run-time panic for ANY value, and reference bytes whenever the reference has an
+    encoding. *)
 From Coq Require Import NArith List String Bool Lia.
 From Coq Require Import Strings.Byte.
-From PDL Require Import Base.Bits Lang.Ast Lang.Sexp Sem.RefEncode Rust.Encode.
+From PDL Require Import Base.Bits Base.Outcome Lang.Ast Lang.Sexp Analyzer.Schema Sem.RefEncode Rust.Encode
+     Proofs.DecodeSafe Proofs.BitfieldEncode Proofs.EncodeSafe.
 Import ListNotations.
 Open Scope N_scope.
 
@@ -34,3 +38,26 @@ Print Assumptions C05_chunk_bytes_written_partial.
 
 Example C05_example : pack_value 8 [(300, 16, 4)] < 2 ^ 8.
 Proof. apply C05_chunk_never_exceeds_its_type_partial. Qed.
+
+(** Whole declarations of the bit-field fragment (scalars, enums, fixed, reserved in any
+    composition), ANY value -- in range, out of range or ill-typed: the emitted encoder
+    yields bytes, an EncodeError or a refusal of the generator; it never panics at run time. *)
+Theorem C05_bitfield_declarations_never_panic :
+  forall (fuel : nat) (fl : file) (sch : schema) (id : string) (d : decl) (v : value),
+    lookup_decl fl id = Some d ->
+    root_of_fragment fl d ->
+    no_rt_panic (rust_encode (S fuel) fl sch id v).
+Proof. exact rust_encode_fragment_nrp. Qed.
+Print Assumptions C05_bitfield_declarations_never_panic.
+
+(** ... and when the value is one the reference can encode, the bytes are the reference's
+    (no truncation): this is C03's theorem, restated here because it is the other half *)
+Theorem C05_bitfield_declarations_do_not_truncate :
+  forall (fuel : nat) (fl : file) (sch : schema) (id : string) (d : decl) (v : value) (bs : list byte),
+    schema_knows_enums fl sch ->
+    lookup_decl fl id = Some d ->
+    root_of_fragment fl d ->
+    ref_encode (S fuel) fl id v = Some bs ->
+    good (rust_encode (S fuel) fl sch id v) bs.
+Proof. exact rust_encode_fragment. Qed.
+Print Assumptions C05_bitfield_declarations_do_not_truncate.
